@@ -508,7 +508,25 @@ pub fn sched_subs_for(id: &str) -> Vec<Sub> {
             8_000,
             200_000,
         )],
-        "C04" => vec![sched_sub(
+        "C04" => vec![
+          Sub {
+            max_lanes: 8,
+            ..sub(
+                p_misc::C04Calls {
+                    cfg: GenCfg {
+                        p_batch: 3,
+                        p_tl: 2,
+                        tl_in_batch: true,
+                        tl_in_batch_access: false,
+                        max_ops: 14,
+                        ..sched_cfg()
+                    },
+                },
+                6_000,
+                200_000,
+            )
+          },
+          sched_sub(
             p_sched::SchedProp {
                 max_repeats: 4,
                 ..sp(
@@ -530,7 +548,8 @@ pub fn sched_subs_for(id: &str) -> Vec<Sub> {
             },
             8_000,
             200_000,
-        )],
+          ),
+        ],
         "C05" => vec![
             sched_sub(
                 sp(
